@@ -21,6 +21,8 @@ META = {
 META["explanation"] += " " + '(SB-eqlen, shared with C15) the key comparison GroupBy relies on is a length-checked equality, not a prefix test.'
 META["explanation"] += " " + "FLOW-key is decided by taint flow: a value carrying the group's name (the key parameters or locals computed from them alone) must be compared or looked up against something that varies per element inside the element loop. (HC-confirm, shared with C13) a match by stored hash is confirmed by comparing the key."
 META["explanation"] += " " + '(RV-use, shared with C12) the moving append GroupBy relies on really moves. (SB-scan, shared with C13) the deep copy made through copyTable visits every slot of its source.'
+META["explanation"] += " " + "(SB-attr) the four attribute-name tests of parseLoopAttributes are the same test up to the attribute's name. (WHO-ptrvalue, shared with C16) GroupBy's result holds no borrowed pointers."
+META["explanation"] += " " + '(OUT-alias, shared with C16) GroupBy separates the case v.GroupBy(v, ...) before it resets its result.'
 
 
 
@@ -217,4 +219,10 @@ def run(ctx):
     # the deep copies GroupBy makes go through HashTable::copyTable: the scan must cover every slot of the source
     from rules.C13 import rule_scan_extent
     rules.append(rule_scan_extent(ctx, m))
+    from rules.common import rule_attr_siblings
+    rules.append(rule_attr_siblings(ctx, m))
+    from rules.common import rule_pointer_value_makers
+    rules.append(rule_pointer_value_makers(ctx, m))
+    from rules.common import rule_out_alias
+    rules.append(rule_out_alias(ctx, m))
     return rules
